@@ -16,6 +16,7 @@ import (
 	"encoding/json"
 	"fmt"
 	"io"
+	"iter"
 	"log/slog"
 	"math/big"
 	"sort"
@@ -33,6 +34,7 @@ import (
 	"reduction.dev/reduction/connectors"
 	"reduction.dev/reduction/connectors/embedded"
 	"reduction.dev/reduction/connectors/httpapi"
+	"reduction.dev/reduction/connectors/httpapi/httpapitest"
 	"reduction.dev/reduction/connectors/kinesis"
 	"reduction.dev/reduction/connectors/kinesis/kinesisfake"
 	"reduction.dev/reduction/connectors/kinesis/kinesispb"
@@ -40,6 +42,8 @@ import (
 	"reduction.dev/reduction/proto/jobpb"
 	"reduction.dev/reduction/proto/snapshotpb"
 	"reduction.dev/reduction/proto/workerpb"
+	"reduction.dev/reduction/storage/locations"
+	"reduction.dev/reduction/storage/snapshots"
 	"reduction.dev/reduction/util/verifhook"
 	"reduction.dev/reduction/workers/sourcerunner"
 	"verifharness/hx"
@@ -49,7 +53,7 @@ type eng struct{}
 
 func (eng) Name() string { return "splits" }
 func (eng) CoqRequire(mode string) string {
-	return "From Coq Require Import List NArith. Import ListNotations.\nFrom RV Require Import Model.SplitTracker Model.Splitters Model.RunnerLoop Corr.Check_splits."
+	return "From Coq Require Import List NArith. Import ListNotations.\nFrom RV Require Import Model.SplitTracker Model.Splitters Model.RunnerLoop Model.HttpReader Corr.Check_splits."
 }
 func (eng) CoqCaseType(mode string) string { return "Check_splits.case" }
 func (eng) CoqRun(mode string) string      { return "Check_splits.run" }
@@ -61,6 +65,8 @@ func (eng) Rule(mode string) string {
 		return "random op sequences (load/add/track/remove/available/assigned) on the real SplitTracker over 8 shard ids with parent links. Non-trivial: some AvailableSplits call withheld a child."
 	case "kinesis":
 		return "split/merge lineage histories on kinesisfake with discovery ticks, finished shards (single and pairs), checkpoints and restores at random points, 1..4 runners. Non-trivial: at least one reshard and one restore or one withheld child."
+	case "httpread":
+		return "the real httpapi SourceReader against the httpapitest server: bounded topics of 0..12 records, server page size 0 (all) ..4, random sequences of ReadEvents / Checkpoint / restore-from-last-checkpoint, always continued past end of input. Non-trivial: the last page carries records together with eoi and a checkpoint is taken after it."
 	default:
 		return "embedded: every (split count 0..12, runner count 1..6) and a restore; httpapi: runner counts 0..4 with random split states."
 	}
@@ -950,6 +956,66 @@ func genKinesis(r *hx.Rand, tier string) *hx.Case {
 	return &hx.Case{Name: "kinesis", Params: map[string]any{"mode": "kinesis", "runners": r.Range(1, 4), "shards": r.Range(1, 4)}, Ops: ops}
 }
 
+// memLoc is an in-memory storage location for the real snapshots.Store.
+type memLoc struct {
+	mu    sync.Mutex
+	files map[string][]byte
+}
+
+func (m *memLoc) Write(path string, r io.Reader) (string, error) {
+	data, err := io.ReadAll(r)
+	if err != nil {
+		return "", err
+	}
+	m.mu.Lock()
+	defer m.mu.Unlock()
+	m.files[path] = data
+	return path, nil
+}
+func (m *memLoc) Read(path string) ([]byte, error) {
+	m.mu.Lock()
+	defer m.mu.Unlock()
+	if d, ok := m.files[path]; ok {
+		return d, nil
+	}
+	return nil, locations.ErrNotFound
+}
+func (m *memLoc) List() iter.Seq2[string, error] {
+	m.mu.Lock()
+	var names []string
+	for n := range m.files {
+		names = append(names, n)
+	}
+	m.mu.Unlock()
+	sort.Strings(names)
+	return func(yield func(string, error) bool) {
+		for _, n := range names {
+			if !yield(n, nil) {
+				return
+			}
+		}
+	}
+}
+func (m *memLoc) URI(path string) (string, error) { return path, nil }
+func (m *memLoc) Copy(src, dst string) error {
+	d, err := m.Read(src)
+	if err != nil {
+		return err
+	}
+	m.mu.Lock()
+	defer m.mu.Unlock()
+	m.files[dst] = d
+	return nil
+}
+func (m *memLoc) Remove(paths ...string) error {
+	m.mu.Lock()
+	defer m.mu.Unlock()
+	for _, p := range paths {
+		delete(m.files, p)
+	}
+	return nil
+}
+
 // transient marks a failure of the local HTTP plumbing between the AWS SDK and kinesisfake (seen under
 // heavy machine load: "use of closed network connection" while reading a 200 response); the case is then
 // executed again from scratch on a fresh stream.
@@ -1098,6 +1164,12 @@ func execKinesisOnce(c *hx.Case) (*hx.Result, error) {
 		return s
 	}
 
+	// the job's snapshot store lives as long as the job process: checkpoints are taken THROUGH it (the splitter
+	// state of a published job checkpoint is what the store asked the registered splitter for)
+	ckEvents := make(chan string, 8)
+	storeErr := make(chan error, 8)
+	store := snapshots.NewStore(&snapshots.NewStoreParams{FileStore: &memLoc{files: map[string][]byte{}}, SavepointsPath: "savepoints",
+		CheckpointsPath: "checkpoints", CheckpointEvents: ckEvents, ErrChan: storeErr})
 	var sp *kinesis.SourceSplitter
 	var pk *park
 	var tickCh chan time.Time
@@ -1105,6 +1177,7 @@ func execKinesisOnce(c *hx.Case) (*hx.Result, error) {
 	start := func(ck *snapshotpb.SourceCheckpoint) {
 		errCh = make(chan error, 4)
 		sp = kinesis.NewSourceSplitter(cfg, runners, hooks, errCh)
+		store.RegisterSourceSplitter(sp) // Job.start: every assembly registers its splitter with the snapshot store
 		pk = &park{parked: make(chan struct{}), release: make(chan struct{})}
 		parks.Store(sp, pk)
 		must(sp.Start(ck))
@@ -1223,7 +1296,50 @@ func execKinesisOnce(c *hx.Case) (*hx.Result, error) {
 			round()
 			terms = append(terms, fmt.Sprintf("KFinish %s %s", hx.CoqList(ns, "N"), take()))
 		case "ckpt":
-			ckBytes = sp.Checkpoint()
+			// reader split states: one per shard assigned in this epoch and not finished
+			var states [][]byte
+			var stt []string
+			nck++
+			for _, s := range stream {
+				if epoch[s.id] && !fin[s.id] {
+					cu := uint64(0)
+					if (int(s.id)+op.K)%4 != 0 {
+						cu = uint64(nck)*1000 + s.id
+					}
+					cs := ""
+					if cu > 0 {
+						cs = strconv.FormatUint(cu, 10)
+					}
+					b, err := gproto.Marshal(&kinesispb.Shard{ShardId: sidStr(s.id), Cursor: cs})
+					must(err)
+					states = append(states, b)
+					stt = append(stt, hx.CoqPair(hx.CoqN(s.id), hx.CoqN(cu)))
+				}
+			}
+			// a job checkpoint: every source runner acknowledges, the store asks the registered splitter for its
+			// state and publishes; the splitter is restored from the published checkpoint
+			cid, err := store.CreateCheckpoint(nil, runners)
+			must(err)
+			for ri, rid := range runners {
+				var st [][]byte
+				if ri == 0 {
+					st = states
+				}
+				must(store.AddSourceSnapshot(&jobpb.SourceRunnerCheckpointCompleteRequest{CheckpointId: cid, SourceRunnerId: rid, SplitStates: st}))
+			}
+			select {
+			case <-ckEvents:
+			case e := <-storeErr:
+				panic("snapshot store: " + e.Error())
+			case <-time.After(20 * time.Second):
+				panic("snapshot store did not publish the checkpoint")
+			}
+			pub := store.CurrentCheckpoint()
+			if pub == nil || pub.Id != cid || len(pub.SourceCheckpoints) != 1 {
+				panic("snapshot store: published checkpoint is not the one just completed")
+			}
+			ckBytes = pub.SourceCheckpoints[0].SplitterState
+			ckStates = pub.SourceCheckpoints[0].SplitStates
 			var st kinesispb.SplitterState
 			must(gproto.Unmarshal(ckBytes, &st))
 			var at []string
@@ -1246,26 +1362,6 @@ func execKinesisOnce(c *hx.Case) (*hx.Result, error) {
 			ckAssignedTerm = hx.CoqList(at, "shard")
 			ckLast = sidNum(st.LastAssignedShardId)
 			terms = append(terms, fmt.Sprintf("KCkpt %s %d", ckAssignedTerm, ckLast))
-			// reader split states: one per shard assigned in this epoch and not finished
-			ckStates = nil
-			var stt []string
-			nck++
-			for _, s := range stream {
-				if epoch[s.id] && !fin[s.id] {
-					cu := uint64(0)
-					if (int(s.id)+op.K)%4 != 0 {
-						cu = uint64(nck)*1000 + s.id
-					}
-					cs := ""
-					if cu > 0 {
-						cs = strconv.FormatUint(cu, 10)
-					}
-					b, err := gproto.Marshal(&kinesispb.Shard{ShardId: sidStr(s.id), Cursor: cs})
-					must(err)
-					ckStates = append(ckStates, b)
-					stt = append(stt, hx.CoqPair(hx.CoqN(s.id), hx.CoqN(cu)))
-				}
-			}
 			ckStatesTerm = hx.CoqList(stt, "N * N")
 			ckFin = map[uint64]bool{}
 			for k := range fin {
@@ -1459,6 +1555,126 @@ func execStatic(c *hx.Case) (*hx.Result, error) {
 }
 
 // =====================================================================================================
+// mode httpread: the real httpapi SourceReader against the httpapitest server
+// =====================================================================================================
+
+type hop struct {
+	Kind string `json:"kind"` // read | ckpt | restore
+}
+
+var (
+	httpSrvMu  sync.Mutex
+	httpSrv    = map[int]*httpapitest.SinkServer{} // one server per page size, one topic per case
+	httpTopics int
+)
+
+func genHTTPRead(r *hx.Rand, tier string) *hx.Case {
+	n := r.Range(0, 12)
+	b := r.Range(0, 4)
+	var ops []json.RawMessage
+	k := r.Range(3, 12)
+	for i := 0; i < k; i++ {
+		switch x := r.Intn(20); {
+		case x < 12:
+			ops = append(ops, hx.Op(hop{Kind: "read"}))
+		case x < 17:
+			ops = append(ops, hx.Op(hop{Kind: "ckpt"}))
+		default:
+			ops = append(ops, hx.Op(hop{Kind: "restore"}))
+		}
+	}
+	// always continue past end of input: checkpoint after the last page, recover from it, read again
+	pages := 1
+	if b > 0 {
+		pages = n/b + 1
+	}
+	for i := 0; i < pages; i++ {
+		ops = append(ops, hx.Op(hop{Kind: "read"}))
+	}
+	ops = append(ops, hx.Op(hop{Kind: "ckpt"}), hx.Op(hop{Kind: "restore"}), hx.Op(hop{Kind: "read"}), hx.Op(hop{Kind: "ckpt"}))
+	return &hx.Case{Name: "httpread", Params: map[string]any{"mode": "httpread", "n": n, "b": b}, Ops: ops}
+}
+
+func execHTTPRead(c *hx.Case) (*hx.Result, error) {
+	n, b := pint(c, "n", 3), pint(c, "b", 2)
+	httpSrvMu.Lock()
+	srv := httpSrv[b]
+	if srv == nil {
+		srv = httpapitest.StartServer(httpapitest.WithReadBatchSize(b))
+		httpSrv[b] = srv
+	}
+	httpTopics++
+	topic := fmt.Sprintf("t%d", httpTopics)
+	httpSrvMu.Unlock()
+	for i := 0; i < n; i++ {
+		srv.Write(topic, []byte(strconv.Itoa(i)))
+	}
+	newReader := func(cursor []byte) connectors.SourceReader {
+		rd := httpapi.NewSourceReader(httpapi.SourceConfig{Addr: srv.URL(), Topics: []string{topic}})
+		must(rd.AssignSplits([]*workerpb.SourceSplit{{SplitId: "only", SourceId: "x", Cursor: cursor}}))
+		return rd
+	}
+	rd := newReader(nil)
+	var lastCk []byte
+	var terms []string
+	emitted := 0
+	lastPageWithRecords, ckptAfterEOI, sawEOI := false, false, false
+	for _, raw := range c.Ops {
+		var op hop
+		if err := json.Unmarshal(raw, &op); err != nil {
+			return nil, err
+		}
+		switch op.Kind {
+		case "read":
+			evs, err := rd.ReadEvents()
+			eoi := false
+			if err != nil {
+				if err != connectors.ErrEndOfInput {
+					return nil, fmt.Errorf("ReadEvents: %w", err)
+				}
+				eoi = true
+			}
+			var ids []string
+			for _, e := range evs {
+				x, perr := strconv.Atoi(string(e))
+				if perr != nil {
+					x = 999999
+				}
+				ids = append(ids, hx.CoqN(uint64(x)))
+			}
+			if eoi && len(evs) > 0 {
+				lastPageWithRecords = true
+			}
+			sawEOI = sawEOI || eoi
+			emitted += len(evs)
+			terms = append(terms, fmt.Sprintf("HRead %s %s", hx.CoqList(ids, "N"), hx.CoqBool(eoi)))
+		case "ckpt":
+			st := rd.Checkpoint()
+			if len(st) != 1 || len(st[0]) != 8 {
+				return nil, fmt.Errorf("Checkpoint: unexpected split states %v", st)
+			}
+			lastCk = st[0]
+			if sawEOI {
+				ckptAfterEOI = true
+			}
+			terms = append(terms, fmt.Sprintf("HCkpt %d", new(big.Int).SetBytes(st[0]).Uint64()))
+		case "restore":
+			rd = newReader(lastCk)
+			sawEOI = false
+			terms = append(terms, "HRestore")
+		}
+	}
+	tags := []string{fmt.Sprintf("page=%d", b)}
+	if lastPageWithRecords {
+		tags = append(tags, "last_page_with_records_and_eoi")
+	}
+	if ckptAfterEOI {
+		tags = append(tags, "ckpt_after_eoi")
+	}
+	return &hx.Result{Term: fmt.Sprintf("(CHttpRead %d %d %s)", n, b, hx.CoqList(terms, "hop")), Nontrivial: lastPageWithRecords && ckptAfterEOI, Tags: tags, Observed: terms}, nil
+}
+
+// =====================================================================================================
 
 func (eng) Generate(mode, tier string, r *hx.Rand) []*hx.Case {
 	var cs []*hx.Case
@@ -1481,6 +1697,14 @@ func (eng) Generate(mode, tier string, r *hx.Rand) []*hx.Case {
 		}
 	case "static":
 		cs = genStatic(r, tier)
+	case "httpread":
+		k := 150
+		if tier == "thorough" {
+			k = 1200
+		}
+		for i := 0; i < k; i++ {
+			cs = append(cs, genHTTPRead(r.Fork(), tier))
+		}
 	}
 	return cs
 }
@@ -1495,6 +1719,8 @@ func (eng) Execute(mode string, c *hx.Case) (*hx.Result, error) {
 		return execKinesis(c)
 	case "static":
 		return execStatic(c)
+	case "httpread":
+		return execHTTPRead(c)
 	}
 	return nil, fmt.Errorf("unknown mode %q", mode)
 }
